@@ -632,6 +632,6 @@ func TestC07(t *testing.T) {
 	}()
 	defer func() { <-loopDone }()
 	ev.Check(t, rec, "classify", rec.Pick(3000, 50000), genClass, runClass)
-	ev.Check(t, rec, "history", rec.Pick(60, 1200), genCase, runCase)
+	ev.Check(t, rec, "history", rec.Pick(60, 900), genCase, runCase)
 	ev.Check(t, rec, "assembly", rec.Pick(6, 120), genAsm, runAsm)
 }
